@@ -126,6 +126,24 @@ def siblings_trivial_ok(d1, d2):
     return all(isinstance(again.properties[k].element.default, NotPassed) for k in ("x", "y", "z"))
 
 
+def shared_subschema_ok(d, shape):
+    """the same dict object appears at two places of the document (shared $ref after materialisation)"""
+    from vf.common import parse_element, jeq, NotPassed, serialize_json
+
+    sub = ({"type": ["integer", "null"], "default": d}, {"anyOf": [{"type": "integer"}, {"type": "string"}], "default": d},
+           {"type": ["string"], "default": d}, {"type": "object", "title": "Sub", "default": d},
+           {"type": "array", "items": {"type": ["boolean", "null"], "default": d}})[shape]
+    doc = {"type": "object", "title": "T", "properties": {"p": sub, "q": sub, "r": {"type": "array", "items": sub}}}
+    el = parse_element(doc)
+    got = [el.properties["p"].element, el.properties["q"].element, el.properties["r"].element.items]
+    if shape == 4:
+        got = [g.items for g in got]
+    for g in got:
+        if isinstance(g.default, NotPassed) or not jeq(g.default, d):
+            return False
+    return True
+
+
 def siblings_ok(d1, d2):
     """two siblings each keep their own default; container defaults are not shared objects."""
     from vf.common import parse_s, jeq, NotPassed
@@ -315,6 +333,8 @@ return default_ok({S}, d, {loc}, {jloc}, {nd})
                  ["not isinstance(d1, list) or len(d1) <= 1", "not isinstance(d2, list) or len(d2) <= 1", "not isinstance(d2, str) or len(d2) <= 1"],
                  "return siblings_trivial_ok(d1, d2)", timeout=120, group="default",
                  covers="defaults next to all-trivial / single-branch compositions, bare siblings of the same kinds, and a later unrelated parse"))
+    hs.append(mk("c07_default_shared_subschema", f"d: {DT}, shape: int", DPRE + ["0 <= shape < 5"], "return shared_subschema_ok(d, concretize_int(shape, 0, 4))", timeout=200, group="default",
+                 covers="one sub-schema dict object referenced from three places (type list / composition / one-element type list / object / array items): every occurrence keeps the default"))
     hs.append(mk("c07_default__reach", f"d: {DT}", DPRE,
                  'return not (isinstance(d, list) and default_ok({"type": "integer", "default": d}, d, lambda e: e, lambda j: j, 1))',
                  kind="witness", timeout=30, group="default"))
